@@ -121,6 +121,12 @@ def _inf_sign(v):
 class SymBool:
     __slots__ = ("z",)
 
+    def __deepcopy__(self, memo):
+        return self  # immutable
+
+    def __copy__(self):
+        return self
+
     def __init__(self, z):
         self.z = z
 
@@ -214,6 +220,12 @@ class Sym:
     """Numeric proxy over a z3 Int or Real term."""
 
     __slots__ = ("z",)
+
+    def __deepcopy__(self, memo):
+        return self  # immutable
+
+    def __copy__(self):
+        return self
 
     def __init__(self, z):
         self.z = z
@@ -514,6 +526,12 @@ class SymState:
     __slots__ = ("z",)
     CODES = {None: 0, "warning": 1, "drift": 2}
 
+    def __deepcopy__(self, memo):
+        return self  # immutable
+
+    def __copy__(self):
+        return self
+
     def __init__(self, z):
         self.z = z
 
@@ -542,6 +560,12 @@ class SymLabel:
     """A class label of unknown encoding: supports equality only."""
 
     __slots__ = ("z",)
+
+    def __deepcopy__(self, memo):
+        return self  # immutable
+
+    def __copy__(self):
+        return self
 
     def __init__(self, z):
         self.z = z
@@ -1176,6 +1200,25 @@ class Explorer:
                 self.inconclusive.append(str(e))
                 set_cur(None)
                 break
+            except Exception as e:  # the code under test raised on an input the harness deems accepted
+                import traceback
+
+                self.stats.paths += 1
+                tb = "".join(traceback.format_exception(type(e), e, e.__traceback__))[-1500:]
+                model = None
+                try:
+                    model = ctx.full_model()
+                except BaseException:  # noqa: BLE001
+                    model = None
+                if model is None:
+                    self.inconclusive.append(f"exception {type(e).__name__}: {e} (no model)\n{tb}")
+                    set_cur(None)
+                    break
+                self.violations.append(Violation(f"unexpected-exception:{type(e).__name__}", model,
+                                                 _dec_json(ctx.decisions), tb))
+                if self.stop_on_violation:
+                    set_cur(None)
+                    break
             set_cur(None)
         self.stats.wall_s = round(time.perf_counter() - t0, 3)
         return self
